@@ -164,7 +164,7 @@ func Spec() *core.Spec {
 			"every tree also through one long-lived encoder after a filler message and Clear(); the previous tree's returned bytes re-checked after later encodes; distinct = distinct (tree shape: tags, types, length mod 8, big-integer sign and bit-length mod 8)",
 		Assumptions: []string{"package wire is an independent reading of KMIP 1.4 §9.1 by the same author as the check", "booleans are exactly 0 or 1 on the wire"},
 		Shards:      func(tier string) int { return 8 },
-		Required:    []string{"trees", "reused_encoder_outputs", "text_not_valid_utf8", "overlong_bigint_inputs", "cases.ladder-strings", "cases.ladder-bigint"},
+		Required:    []string{"trees", "reused_encoder_outputs", "deeply_nested_trees", "text_not_valid_utf8", "overlong_bigint_inputs", "cases.ladder-strings", "cases.ladder-bigint"},
 		Families: []core.Family{
 			{Name: "random", N: nOf(30000, 1500000), Run: func(c *core.Ctx, r *core.Rand, i int) {
 				t := gen.RandTree(r, 6, 6)
